@@ -1079,6 +1079,31 @@ def clause_h(ctx: Context, idx) -> None:
                           f"`{norm(a)[:80]}` re-seeds an existing Generator object in place; the object is shared by reference with the copies of the "
                           f"configuration held by simulators and states, so an already seeded simulator draws the stream of a seed that was set later",
                           norm(a)[:100])
+    # the seed setter re-creates the numpy generator and re-seeds Python's global generator (which the Fock measurements still draw from,
+    # known finding) together: every path that does the first does the second
+    from .. import cfg as _cfg
+    cfgc = idx.find_class("piquasso.api.config", "Config")
+    setter = cfgc.methods.get("seed_sequence.setter")
+    if setter is None:
+        raise AnalysisError("anchor vanished: Config.seed_sequence setter")
+    g_ = _cfg.build(setter.node)
+    creates = [nd for nd in g_.nodes if nd.stmt is not None and isinstance(nd.stmt, ast.Assign)
+               and any(isinstance(c_, ast.Call) and (dotted(c_.func) or "").split(".")[-1] == "default_rng" for c_ in ast.walk(nd.stmt))]
+    seeds_global = lambda nd: nd.stmt is not None and any(isinstance(c_, ast.Call) and (dotted(c_.func) or "") == "random.seed" for c_ in _cfg.own_nodes(nd))  # noqa: E731
+    if not creates or not any(seeds_global(nd) for nd in g_.nodes):
+        raise AnalysisError("C11a: Config.seed_sequence setter no longer creates the generator and seeds `random` (undecided)")
+    for nd in creates:
+        escapes = g_.must_pass_before_exit(nd.id, seeds_global, exits=(_cfg.EXIT,))
+        dominated = g_.dominates(seeds_global, nd.id)
+        ok_ = not escapes or dominated
+        keyp = f"{cfgc.qualname}.seed_sequence.setter|random.seed on every path that re-creates the generator"
+        ctx.obligation("C11a", keyp, ok_, f"{ctx.relpath(setter.file)}:{nd.line}")
+        if not ok_:
+            n_mod += 1
+            ctx.violation("C11a", keyp, setter.file, nd.line,
+                          "a path through the seed setter re-creates the numpy generator without re-seeding Python's global generator, which the "
+                          "Fock particle-number measurements draw from: two simulators configured with the same seed through the setter give "
+                          "different samples", norm(nd.stmt)[:100])
     fhits = module_caches(ftree)
     if not any(h[3] == "instruction._params['mean_photon_number']" for h in fhits):
         raise AnalysisError("C11h: the module-level positive fixture in stubs/memo_key_fixture.py is no longer matched")
